@@ -1,7 +1,7 @@
 (* Extract.v -- extraction of the executable model for the correspondence check.
    Only ExtrOcamlBasic is used (bool, option, unit, list, prod, sumbool -> OCaml natives);
    N, positive, Z, nat stay Coq inductives.  No Extract Constant of our own. *)
-Require Import Base CharSet Partition LoopRange Regex Inclusion Constructors Deriv Explore Automaton Minimizer Compile Denote StrConv StrSearch Literal BuilderSpec PartitionSpec.
+Require Import Base CharSet Partition LoopRange Regex Inclusion Constructors Deriv Explore Automaton Minimizer Compile Denote StrConv StrSearch Literal BuilderSpec PartitionSpec SubTerms StrMisc Display.
 Require Extraction.
 Require Import ExtrOcamlBasic.
 Extraction "extracted/model.ml"
@@ -20,6 +20,16 @@ Extraction "extracted/model.ml"
   (* automata *)
   compile_with_bound remove_unreachable pick_alphabet combined_partition compile_successors ct_eval minimize
   b_new b_mark_final b_set_default b_add_transition build build_unchecked a_next a_state a_accepts a_str_next edges
+  a_state_at a_initial_state a_states a_num_states a_num_final_states a_final_states a_default_successor
+  a_class_next a_char_set_next s_num_successors s_has_default_successor s_default_successor s_valid_class_id
+  s_char_maps_to_default s_char_classes s_class_of_char s_char_picks s_char_ranges
+  (* sub-term iterators, RE accessors (C07c) *)
+  sub_terms leaves re_is_atomic re_is_empty re_num_deriv_classes re_valid_class_id
+  (* SmtString accessors (C17) *)
+  from_array good_char good_string smt_is_good smt_len smt_is_empty smt_char smt_iter
+  smt_is_unicode smt_to_unicode_string
+  (* Display implementations (informational engine) *)
+  lr_display cs_display classid_display cover_display part_display state_display automaton_display
   (* builder spec + automata oracles *)
   run_history h_names h_labels h_default h_final spec_delta spec_sound spec_strict name_id
   aut_wfb a_step dfa_equiv dfa_equiv_from nerode_classes collapsed nerode_index reachable least_uncovered pwfb
